@@ -71,6 +71,10 @@ func realClientVsRefServer(c *mc.Ctx, t tuple, seed int64) {
 		realStream.Script8 = [][]byte{rnd.ScriptIntn(0)}
 	case "max":
 		realStream.Script8 = [][]byte{rnd.ScriptIntn(8128 - 77)}
+	case "over":
+		// one beyond the largest residue of the draw: wraps around to a legal
+		// length in correct code, leaves the deployed range in an off-by-one one
+		realStream.Script8 = [][]byte{rnd.ScriptIntn(8128 - 77 + 1)}
 	}
 	refRnd := rnd.New(seed, "c06-ref-"+t.name())
 	cw, sw := wire.Pipe("client", "server")
@@ -266,6 +270,8 @@ func refClientVsRealServer(c *mc.Ctx, t tuple, seed int64) {
 			realStream.Script8 = [][]byte{rnd.ScriptIntn(0)}
 		case "max":
 			realStream.Script8 = [][]byte{rnd.ScriptIntn(8051)}
+		case "over":
+			realStream.Script8 = [][]byte{rnd.ScriptIntn(8052)}
 		}
 		conn, wrapErr = sf.WrapConn(sw)
 		if wrapErr != nil {
@@ -380,7 +386,7 @@ func main() {
 								for _, p := range spads {
 									add(tuple{id, sd, iat, bias, format, sc, p, "real-client", 0, "", false})
 								}
-								for _, rp := range []string{"min", "max"} {
+								for _, rp := range []string{"min", "max", "over"} {
 									add(tuple{id, sd, iat, bias, format, sc, 7, "real-client", 0, rp, false})
 								}
 								if id == 0 && sc.name != "bulk" {
@@ -393,7 +399,7 @@ func main() {
 									for _, hd := range []int64{-1, 1} {
 										add(tuple{id, sd, iat, bias, format, sc, 100, "real-server", hd, "", false})
 									}
-									for _, rp := range []string{"min", "max"} {
+									for _, rp := range []string{"min", "max", "over"} {
 										add(tuple{id, sd, iat, bias, format, sc, 100, "real-server", 0, rp, false})
 									}
 									if id == 0 && sc.name != "bulk" {
